@@ -9,7 +9,8 @@
  *         operating system / libc really answered (the model's oracle).
  *         A case that cannot be set up here prints "SKIP <why>".
  * The buffer is pre-filled with 0x80|(i&0x7f); it is followed by a PROT_NONE
- * page, so a write beyond cap is a SIGSEGV, reported as cap:SEGV.
+ * page, so a write beyond cap is a SIGSEGV: the line ends with DIED:<sig>:<cap>:<size>
+ * and the process exits 3 (checks/c19.py then isolates the case and goes on).
  * See ocaml/drv_c19.ml for the model side of the same format. */
 #include <stdio.h>
 #include <stdlib.h>
@@ -129,10 +130,11 @@ static int call(int g, char* buf, size_t* size) {
   return -9999;
 }
 
-static volatile size_t cur_cap;
-static void on_segv(int sig) {
-  (void) sig;
-  printf("SEGV "); printf("\n");
+static volatile size_t cur_cap, cur_tok_cap;
+/* death inside a getter (guard page fault, abort, ...): finish the line with
+ * DIED:<signal>:<cap token of the case>:<size handed to the failing call> and leave */
+static void on_fatal(int sig) {
+  printf(" DIED:%d:%zu:%zu\n", sig, (size_t) cur_tok_cap, (size_t) cur_cap);
   fflush(stdout);
   _exit(3);
 }
@@ -164,6 +166,7 @@ static void sweep(int g, char* caps) {
     int rc;
     if (cap == 0 || cap > (size_t) (REGION_PAGES * pg - PRE)) continue;
     printf("%zu:", cap);
+    cur_tok_cap = cap;
     rc = guarded(g, cap, &size);
     if (rc == UV_ENOBUFS && has_size(g) && size >= 1 && size <= (size_t) (REGION_PAGES * pg - PRE)) {
       size_t s2;
@@ -423,8 +426,9 @@ int main(int argc, char** argv) {
   guard = region + REGION_PAGES * pg;
   if (mprotect(guard, (size_t) pg, PROT_NONE) != 0) die("mprotect");
   ss.ss_sp = malloc(65536); ss.ss_size = 65536; ss.ss_flags = 0; sigaltstack(&ss, NULL);
-  memset(&sa, 0, sizeof(sa)); sa.sa_handler = on_segv; sa.sa_flags = SA_ONSTACK;
-  sigaction(SIGSEGV, &sa, NULL); sigaction(SIGBUS, &sa, NULL);
+  memset(&sa, 0, sizeof(sa)); sa.sa_handler = on_fatal; sa.sa_flags = SA_ONSTACK;
+  sigaction(SIGSEGV, &sa, NULL); sigaction(SIGBUS, &sa, NULL); sigaction(SIGABRT, &sa, NULL);
+  sigaction(SIGFPE, &sa, NULL); sigaction(SIGILL, &sa, NULL);
   base_fd = open(".", O_RDONLY | O_DIRECTORY);
   if (base_fd < 0 || getcwd(base_path, sizeof(base_path)) == NULL) die("start directory");
   while (fgets(line, sizeof(line), stdin)) {
